@@ -59,6 +59,24 @@ CHECKS = {
         text="Real RedisOutput with a cluster client against 3-5 node doubles; schedules: none, MOVED between/mid batch, ASK windows with existing/missing keys, back-and-forth, node added; "
              "blocking/pipelined, transactional/non-transactional. One known finding (non-atomic node pipelines) is listed in known_findings.json.",
         design="DESIGN.md §3 C19", note="the double enforces 'executed by the owner'; slots from internal/ref.HashSlot; " + TRUST),
+    "C05": dict(level="exploration", engine="chanmodel",
+        technique="runtime monitor at the Channel boundary of both cache backends against a byte-by-offset model (PRF bytes identify their origin); sequential generated op histories + concurrent writer/readers/collector/pollers under the race detector with interval-bound checks",
+        text="Hundreds (quick) / thousands (thorough) of generated histories over snapshot writes, appends, rotation, size-triggered collection, reader open/read/close, writer replacement, "
+             "run-id switch/delete, incomplete snapshots, verifyCrc group; rotation and collection must actually be observed. Race reports in the anchored files are violations.",
+        design="DESIGN.md §3 C05", note="workloads stay inside the call protocol RedisInput uses; liveness is judged only by logical quiescence (ended reader / starved-by-collector), stalls are inconclusive"),
+    "C13": dict(level="exploration", engine="fakeredis propagation",
+        technique="two site doubles that propagate what a master would (rewrites, no-op omission, MULTI/EXEC) closed into a loop through two real bisync RedisOutputs; origin-tagged client writes; echo / exactly-once / look-alike / ping-pong oracles decided at two-phase sentinels",
+        text="Replay modes sync/pipeline/parallel, filter classes incl. the documented prefix whitelist, snapshot and incremental phases, late reverse link, replication-lag windows producing shrunk mirrored transactions.",
+        design="DESIGN.md §3 C13", note="internal/fakeredis role_propagate models a master's propagation (Redis 6.2/7.2 single-command transaction rule); both sites standalone; " + TRUST),
+    "C14": dict(level="fault_enumeration", engine="bisweep",
+        technique="request-prefix crash sweep + clean-stop schedule of bisync incremental replay (all three modes) with restart chains through the real start-up bookkeeping; oracles over unit table, frontier/latest/journal keys and StartPoint of successive starts; exhaustive RebuildBisyncFrontier subset check",
+        text="Every request prefix incl. recovery/migration requests (grouped by state), 1-3 idle restarts + one with traffic, mode switches, cancellation at logical instants under load; "
+             "standalone target (a gap-skipping coordinator mutant needs the cluster target and is not caught).",
+        design="DESIGN.md §3 C14", note=TRUST),
+    "C16": dict(level="exploration", engine="grpc+channels",
+        technique="runtime monitor: real ReplicaLeader behind a real gRPC server (stream wrapped to cut after message k) and real ReplicaFollower over both cache backends; follower cache read back and compared with PRF(run id, offset) and with the leader",
+        text="54 leader x follower state pairs x 4 backend combinations, live appends, cuts at every k of small transfers, leader restarts under another id, fresh-process reopen of disk followers.",
+        design="DESIGN.md §3 C16", note="non-contiguity decided by API probes, never by a stall timer"),
     "C07": dict(level="fault_enumeration", engine="sweep",
         technique="runtime monitor over the ordered list of <runid>_offset writes observed at the target, idle-heavy feeding plans and restart sequences",
         text="Every value written to the resume-position field during base and resumed runs is checked against the generated stream's command-end "
